@@ -114,8 +114,10 @@ def make_problem(spec):
     noise = spec.get("noise", "det")
     sigma = spec.get("sigma", 0.5)
 
+    offset = float(spec.get("offset", 0.0))     # large baseline: noise that is small RELATIVE to the value is still noise
+
     def fun(x):
-        y = base(x)
+        y = base(x) + offset
         if noise in ("auto", "declared"):
             return y + sigma * np.random.randn()
         if noise == "specified":
